@@ -56,7 +56,7 @@ def query_points(rng, d, n):
 
 class Check(PropertyCheck):
     id = 'C01'
-    lean_targets = ['RegionsVerif.Props.C01', 'RegionsVerif.Props.C01Poly', 'RegionsVerif.Props.C01Cyclic', 'RegionsVerif.Props.C01Tri', 'RegionsVerif.Props.C01Convex', 'RegionsVerif.Props.C01Regular', 'RegionsVerif.Props.C01Rect', 'RegionsVerif.Props.C01Fan', 'RegionsVerif.Bridge.FormulasC01']
+    lean_targets = ['RegionsVerif.Props.C01', 'RegionsVerif.Props.C01Poly', 'RegionsVerif.Props.C01Cyclic', 'RegionsVerif.Props.C01Tri', 'RegionsVerif.Props.C01Convex', 'RegionsVerif.Props.C01Regular', 'RegionsVerif.Props.C01Rect', 'RegionsVerif.Props.C01Fan', 'RegionsVerif.Props.C01Star', 'RegionsVerif.Bridge.FormulasC01']
     namespaces = ['RegionsVerif.Props.C01', 'RegionsVerif.Bridge.C01']
     rule = ('every shape class x sizes 1e-3..1e6 x centres to 1e6 x any angle in deg/rad/arcmin/hourangle x include flag in '
             '{absent, True, False, 1, 0} x query coordinates scalar / 0-length / 1-D / N-D (C-, Fortran-ordered, transposed and strided views), int or float; query points on a '
